@@ -55,7 +55,7 @@ _INVVIOL = re.compile(r"Error: Invariant (\w+) is violated|Error: Action propert
 
 def run_tlc(module, cfg_text, *, workers=None, simulate=None, depth=None, seed=None,
             extra_modules=None, timeout=3600, keep_lines=True, line_sink=None,
-            java_opts=None, coverage=True, deadlock=False, env=None):
+            java_opts=None, coverage=True, deadlock=False, env=None, heap=None):
     """Run TLC on spec/<module>.tla with the given cfg text in a scratch metadir.
 
     PrintT(ToJson(x)) lines are decoded to python objects and returned (or passed to
@@ -72,7 +72,9 @@ def run_tlc(module, cfg_text, *, workers=None, simulate=None, depth=None, seed=N
                 fh.write(text)
         with open(os.path.join(tmp, module + ".cfg"), "w") as fh:
             fh.write(cfg_text)
-        cmd = ["java", "-XX:+UseParallelGC", "-Xss64m", "-Xmx6g"] + (java_opts or []) + [
+        if heap is None:      # trace validation is linear and small; model checking gets more
+            heap = "1500m" if module.startswith("Trace_") else "6g"
+        cmd = ["java", "-XX:+UseParallelGC", "-Xss64m", "-Xmx" + heap] + (java_opts or []) + [
             "-cp", TLC_JAR, "tlc2.TLC", "-workers", str(workers), "-metadir",
             os.path.join(tmp, "meta"), "-noGenerateSpecTE"]
         if coverage:
